@@ -87,6 +87,10 @@ def ite_expr(fn, e, depth=0):
     if depth > 4 or not (isinstance(e, tuple) and e and e[0] == "local"):
         return e
     ds = [dd for dd in df.defs_of(fn).all(e[1]) if not fn.blocks[dd[1]]["cleanup"]]
+    if len(ds) == 1 and ds[0][0] == "stmt" and ds[0][3]["rv"]["k"] == "use":
+        # a plain copy of another local (e.g. the result of a helper that was inlined): look through it
+        x = df.rvalue_expr(fn, ds[0][3]["rv"])
+        return ite_expr(fn, x, depth + 1) if (isinstance(x, tuple) and x and x[0] == "local" and x[1] != e[1]) else e
     if len(ds) < 2 or len(ds) > 8 or any(dd[0] not in ("stmt", "call") for dd in ds):
         return e
 
